@@ -76,6 +76,7 @@ func (ch *Channel) Invoke(ctx context.Context, methodName string, req, resp inte
 	}
 	r.Header = h
 	reply, err := ch.Transport.RoundTrip(r.WithContext(ctx))
+	verifAt("http.unary.after-roundtrip", ctx)
 	if err != nil {
 		return statusFromContextError(err)
 	}
@@ -105,6 +106,7 @@ func (ch *Channel) Invoke(ctx context.Context, methodName string, req, resp inte
 		return stat.Err()
 	}
 
+	verifAt("http.unary.before-select", ctx)
 	select {
 	case <-ctx.Done():
 		return statusFromContextError(ctx.Err())
@@ -434,6 +436,7 @@ func (cs *clientStream) doHttpCall(transport http.RoundTripper, req *http.Reques
 	}
 
 	reply, err := transport.RoundTrip(req.WithContext(cs.ctx))
+	verifAt("http.stream.after-roundtrip", cs.ctx)
 	if err != nil {
 		onReady(statusFromContextError(err), nil)
 		return
@@ -470,6 +473,7 @@ func (cs *clientStream) doHttpCall(transport http.RoundTripper, req *http.Reques
 		counter++
 		var sz int32
 		sz, rErr = readSizePreface(reply.Body)
+		verifAt("http.stream.frame", cs.ctx)
 		if rErr != nil {
 			if rErr == io.EOF {
 				// a complete response always ends with a trailer message, so
